@@ -622,6 +622,93 @@ example : (exchange .udp 7 ⟨[97, 98, 46], 1⟩
     (exchange .udp 7 ⟨[97, 98, 46], 1⟩ (Raw.bytes (exCut ++ exReq.drop 17) 17).wire Raw.netErr.wire).1 = .netErr := by
   decide
 
+/-! ## (g) completeness at the byte level: a whole matching reply is accepted, whatever its size
+
+The specification side is `encodeReply` (RFC 1035 §4.1 written down without looking at the parser).
+Before this round every byte-level theorem had the form "accepted ⇒ matching"; a reader that rejects
+legal replies (a size guard off by one, a buffer one octet short) contradicted none of them. -/
+
+/-- **parseMsg_encodeReply.** `Unpack` (as modelled) of a message laid out by the RFC with one question
+gives back its id, the TC bit, the RCODE and that question, whatever records follow. -/
+theorem parseMsg_encodeReply (h : Hdr) (ls : List (List Nat)) (t1 t2 c1 c2 : Nat) (tail : List Nat)
+    (hl : legalLabels ls) :
+    parseMsg (encodeReply h ls t1 t2 c1 c2 tail) =
+      some { id := h.id1 * 256 + h.id2, qs := [{ name := presName ls, qtype := t1 * 256 + t2 }],
+             tc := (h.f1 / 2) % 2 = 1, tok := 0, rcode := h.f2 % 16 } := by
+  have hp := parseName_encodeName ls ([t1, t2, c1, c2] ++ tail)
+    (encodeName ls ++ ([t1, t2, c1, c2] ++ tail)).length 255 hl.1
+    (by have := encodeName_length_pos ls; simp only [List.length_append]; omega)
+    (by have := hl.2; omega)
+  simp only [encodeReply, List.cons_append, List.nil_append, List.append_assoc, parseMsg]
+  have : (0 * 256 + 1) = 1 := by omega
+  rw [this]
+  simp only [parseQs]
+  simp only [List.cons_append, List.nil_append] at hp
+  rw [hp]
+  simp only [Option.map_some, presName_eq]
+
+/-- A reply with a question is never shorter than `minDNSMessageSize`: the guard of `readMsg` cannot
+reject a well-formed reply, and it is tight (the root name with no records is exactly 17 octets). -/
+theorem legal_reply_never_short (h : Hdr) (ls : List (List Nat)) (t1 t2 c1 c2 : Nat) (tail : List Nat) :
+    minDNSMessageSize ≤ (encodeReply h ls t1 t2 c1 c2 tail).length ∧
+    (encodeReply h [] t1 t2 c1 c2 []).length = minDNSMessageSize := by
+  have := encodeName_length_pos ls
+  constructor
+  · simp only [encodeReply, minDNSMessageSize, List.length_append, List.length_cons, List.length_nil]
+    omega
+  · simp [encodeReply, minDNSMessageSize, encodeName]
+
+/-- **whole_matching_reply_accepted.** The completeness half of "a query is answered by the main
+upstream chosen for it when that upstream replies", from the octets up: if the octets received on the
+transport that decides are a whole message carrying the query's id, its type and its name up to ASCII
+case — of any size from the minimal 17 octets up, whatever records follow, whatever the buffer holds
+behind them — then `readMsg` parses it, `validatePlainResponse` accepts it and `Exchange` returns it:
+over TCP for a TCP-only upstream, over UDP for a UDP-only one, and over UDP for the default kind
+unless the TC bit asks for TCP. -/
+theorem whole_matching_reply_accepted (h : Hdr) (ls : List (List Nat)) (t1 t2 c1 c2 : Nat)
+    (tail residue : List Nat) (reqId : Nat) (q : Question) (other : Wire)
+    (hl : legalLabels ls) (hid : reqId = h.id1 * 256 + h.id2) (hty : q.qtype = t1 * 256 + t2)
+    (hnm : foldName q.name = foldName (presName ls)) :
+    let b := encodeReply h ls t1 t2 c1 c2 tail
+    let m : Msg := { id := reqId, qs := [{ name := presName ls, qtype := q.qtype }],
+                     tc := (h.f1 / 2) % 2 = 1, tok := 0, rcode := h.f2 % 16 }
+    let w := (Raw.bytes (b ++ residue) b.length).wire
+    w = .msg m ∧
+    exchange .tcp reqId q other w = (.ok m, true) ∧
+    exchange .udp reqId q w other = (.ok m, false) ∧
+    (m.tc = false → exchange .any reqId q w other = (.ok m, false)) := by
+  intro b m w
+  have hlen := (legal_reply_never_short h ls t1 t2 c1 c2 tail).1
+  have hw : w = .msg m := by
+    simp only [w, Raw.wire, readMsg]
+    have : ¬ b.length < minDNSMessageSize := by
+      have : b.length = (encodeReply h ls t1 t2 c1 c2 tail).length := rfl
+      omega
+    simp only [this, if_false, List.take_left]
+    rw [show b = encodeReply h ls t1 t2 c1 c2 tail from rfl, parseMsg_encodeReply h ls t1 t2 c1 c2 tail hl]
+    simp [m, hid, hty]
+  have hv : validate reqId q m = .ok := by
+    simp [validate, m, hnm]
+  refine ⟨hw, ?_, ?_, ?_⟩
+  · simp [exchange, hw, exchangeNet, hv]
+  · simp [exchange, hw, exchangeNet, hv]
+  · intro htc
+    simp [exchange, hw, exchangeNet, hv, htc]
+
+/-- Non-vacuity and tightness: the 17-octet reply to `. A` id 7 (header and root question, no
+records) is accepted in every network mode; one octet less is not a message. -/
+example : legalLabels [] ∧
+    (exchange .udp 7 ⟨[46], 1⟩ (Raw.bytes (encodeReply ⟨0, 7, 129, 128, (0, 0), (0, 0), (0, 0)⟩ [] 0 1 0 1 []) 17).wire .netErr).1 =
+      .ok ⟨7, [⟨[46], 1⟩], false, 0, 0⟩ ∧
+    (exchange .udp 7 ⟨[46], 1⟩ (Raw.bytes (encodeReply ⟨0, 7, 129, 128, (0, 0), (0, 0), (0, 0)⟩ [] 0 1 0 1 []) 16).wire .netErr).1 =
+      .netErr := by
+  refine ⟨⟨by simp, by decide⟩, by decide, by decide⟩
+
+/-- Non-vacuity with escapes and case: `A\128.b` answered as `a\128.B` (labels `a\x80`, `B`). -/
+example : legalLabels [[97, 128], [66]] ∧ presName [[97, 128], [66]] = [97, 92, 49, 50, 56, 46, 66, 46] ∧
+    foldName [65, 92, 49, 50, 56, 46, 98, 46] = foldName (presName [[97, 128], [66]]) := by
+  refine ⟨⟨by simp, by decide⟩, by decide, by decide⟩
+
 #print axioms main_reply_used
 #print axioms fallback_once_then_servfail
 #print axioms finish_servfail_iff
@@ -649,6 +736,9 @@ example : (exchange .udp 7 ⟨[97, 98, 46], 1⟩
 #print axioms retry_accepts_only_matching
 #print axioms retry_only_after_conn_error
 #print axioms accepted_reply_parsed_from_received_bytes
+#print axioms parseMsg_encodeReply
+#print axioms legal_reply_never_short
+#print axioms whole_matching_reply_accepted
 
 end Agd.Forward
 
